@@ -6,6 +6,8 @@ mod c02;
 mod c03;
 mod c04;
 mod c05;
+mod c06;
+mod c07;
 mod c12;
 mod c13;
 mod gen_builders;
@@ -20,6 +22,8 @@ fn run_property(id: &str, tier: &str) -> Option<Run> {
         "C03" => c03::run(tier),
         "C04" => c04::run(tier),
         "C05" => c05::run(tier),
+        "C06" => c06::run(tier),
+        "C07" => c07::run(tier),
         "C12" => c12::run(tier),
         "C13" => c13::run(tier),
         _ => return None,
@@ -47,6 +51,8 @@ fn main() {
             "C03" => c03::replay(&v["replay"]),
             "C04" => c04::replay(&v["replay"]),
             "C05" => c05::replay(&v["replay"]),
+            "C06" => c06::replay(&v["replay"]),
+            "C07" => c07::replay(&v["replay"]),
             "C12" => c12::replay(&v["replay"]),
             "C13" => c13::replay(&v["replay"]),
             _ => Err(format!("no replay for property {prop}")),
